@@ -22,6 +22,7 @@ fn main() {
             let id = args[1].clone();
             runner::run_child(&args[1..], |ctx| checks::shard_for(&id, ctx).unwrap_or_default())
         }
+        Some("replay") if args.len() >= 2 => pv::replay::replay(std::path::Path::new(&args[1])),
         Some("c06child") if args.len() >= 4 => checks::c06_kill::child_main(&args[1..]),
         Some("c06verify") if args.len() >= 3 => checks::c06_kill::verify_main(&args[1..]),
         _ => usage(),
